@@ -50,6 +50,8 @@ type Ctx struct {
 	clock    int
 	// PanicOracle is the oracle id a panic escaping a library call is attributed to.
 	PanicOracle string
+	// PanicClassify, if set, maps the text of a panic that escaped a library-spawned task to an oracle id.
+	PanicClassify func(text string) string
 	// SpinOracle is the oracle id a detected busy-wait is attributed to.
 	SpinOracle string
 	Only       string // restrict oracles to this property ("" = all)
